@@ -3,6 +3,10 @@ import DicomModel.Props.C25
 /-
 C27 — PDU reception is independent of how the byte stream is segmented.
 
+`receiveR`/`receiveSync`/`receiveAsync` (second half of this file) put the transport below the loop:
+the peer's segments are re-split by the room each read offers (8192 for the sync `BufReader`, any
+positive spare capacity for the async `read_buf`); `receive_seq_sync`, `receive_seq_async`,
+`sync_async_agree` are the property for the two real receivers.
 `receive` (Model/PduWire.lean) models one call of `read_pdu_from_wire` / `read_pdu_from_wire_async`
 over a script of transport reads. The theorems quantify over *every* script whose concatenation is
 the byte stream (`chunks.flatten = stream`) with no empty read — several PDUs in one read, one PDU
@@ -199,6 +203,152 @@ theorem receive_conserves {mx : Nat} {strict : Bool} (hmx : validMax mx) (chunks
     | [_, _, _], h3 => simp [declaredLen] at h3
     | [_, _, _, _], h3 => simp [declaredLen] at h3
     | [_, _, _, _, _], h3 => simp [declaredLen] at h3
+/-! ### The receivers over a transport that re-splits: sync (8 KiB reads) and async (spare capacity) -/
+
+/-- a read with positive room from a transport of non-empty segments delivers a non-empty prefix of
+what the transport holds, and leaves non-empty segments -/
+theorem readSome_spec {room : Nat} (hroom : 1 ≤ room) {c : Bytes} {cs : List Bytes}
+    (hne : ∀ x ∈ c :: cs, x ≠ []) :
+    (readSome room (c :: cs)).1 ≠ [] ∧
+      (readSome room (c :: cs)).1 ++ (readSome room (c :: cs)).2.flatten = (c :: cs).flatten ∧
+      (∀ x ∈ (readSome room (c :: cs)).2, x ≠ []) ∧
+      (readSome room (c :: cs)).2.flatten.length < (c :: cs).flatten.length := by
+  have hc : c ≠ [] := hne c (by simp)
+  have hcl : 1 ≤ c.length := by cases c <;> simp_all
+  unfold readSome
+  by_cases h : c.length ≤ room
+  · simp only [h, if_true]
+    refine ⟨hc, by simp, fun x hx => hne x (by simp [hx]), by simp; omega⟩
+  · simp only [h, if_false]
+    refine ⟨?_, ?_, ?_, ?_⟩
+    · intro h0
+      have := congrArg List.length h0
+      rw [List.length_take, List.length_nil] at this; omega
+    · simp [← List.append_assoc, List.take_append_drop]
+    · intro x hx
+      rcases List.mem_cons.1 hx with h1 | h1
+      · subst h1; intro h0
+        have := congrArg List.length h0
+        rw [List.length_drop, List.length_nil] at this; omega
+      · exact hne x (by simp [h1])
+    · simp; omega
+
+/-- **One receive over a re-splitting transport.** Whatever room each read is given (≥ 1 byte), a
+receive returns the PDU whose encoding `e` heads buffer ++ transport, and leaves buffer ++ transport
+= the bytes after `e`. -/
+theorem receive_one_wire {mx : Nat} {strict : Bool} (hmx : validMax mx) {rooms : Nat → Nat}
+    (hrooms : ∀ k, 1 ≤ rooms k) {p : Pdu} {e : Bytes}
+    (hp : Receivable mx strict p) (he : writePdu p = .ok e) (tail : Bytes) :
+    ∀ (f k : Nat) (buf : Bytes) (chunks : List Bytes), chunks.flatten.length < f →
+      buf ++ chunks.flatten = e ++ tail → (∀ c ∈ chunks, c ≠ []) →
+      ∃ buf' chunks' k', receiveR mx strict rooms f k buf chunks = .ok (normPdu p, buf', chunks', k') ∧
+        buf' ++ chunks'.flatten = tail ∧ (∀ c ∈ chunks', c ≠ []) := by
+  have hfit := hp.2 e he
+  intro f
+  induction f with
+  | zero => intro k buf chunks hf; omega
+  | succ f ih =>
+    intro k buf chunks hf hb hne
+    rcases List.append_eq_append_iff.1 hb with ⟨a', h1, h2⟩ | ⟨c', h1, h2⟩
+    · by_cases ha : a' = []
+      · subst ha
+        simp only [List.append_nil] at h1
+        subst h1
+        refine ⟨[], chunks, k, ?_, by simpa using h2, hne⟩
+        unfold receiveR
+        have := pdu_rt hp.1 he mx strict hmx hfit []
+        simp only [List.append_nil] at this
+        rw [this]
+      · have hlen : buf.length < e.length := by
+          rw [h1]; cases a' <;> simp_all
+        have hpre : buf = e.take buf.length := by rw [h1]; simp
+        have hinc := prefix_incomplete he mx strict hmx hfit buf.length hlen
+        rw [← hpre] at hinc
+        -- the transport still holds bytes
+        cases chunks with
+        | nil =>
+          exfalso
+          simp at h2
+          exact ha h2.1
+        | cons c cs =>
+          obtain ⟨s1, s2, s3, s4⟩ := readSome_spec (hrooms k) hne
+          have hd : ((readSome (rooms k) (c :: cs)).1).isEmpty = false := by
+            cases hx : (readSome (rooms k) (c :: cs)).1 with
+            | nil => exact absurd hx s1
+            | cons _ _ => rfl
+          obtain ⟨buf', chunks', k', h3, h4, h5⟩ := ih (k + 1) (buf ++ (readSome (rooms k) (c :: cs)).1)
+            (readSome (rooms k) (c :: cs)).2 (by omega) (by rw [List.append_assoc, s2]; exact hb) s3
+          refine ⟨buf', chunks', k', ?_, h4, h5⟩
+          unfold receiveR
+          rw [hinc]
+          simp only [hd]
+          exact h3
+    · subst h1
+      refine ⟨c', chunks, k, ?_, by simpa using h2.symm, hne⟩
+      unfold receiveR
+      rw [pdu_rt hp.1 he mx strict hmx hfit c']
+
+/-- **Sequence over a re-splitting transport**: for any PDUs, any segmentation by the peer
+(non-empty segments) and any rooms (≥ 1) offered by the receiver, `ps.length` receives return
+exactly `ps` (normal forms), leaving buffer and transport empty. -/
+theorem receive_seq_wire {mx : Nat} {strict : Bool} (hmx : validMax mx) {rooms : Nat → Nat}
+    (hrooms : ∀ k, 1 ≤ rooms k) :
+    ∀ (ps : List Pdu) (stream : Bytes), (∀ p ∈ ps, Receivable mx strict p) → writeAll ps = .ok stream →
+      ∀ (k : Nat) (buf : Bytes) (chunks : List Bytes), buf ++ chunks.flatten = stream → (∀ c ∈ chunks, c ≠ []) →
+        ∃ k', receiveManyWire mx strict rooms ps.length k buf chunks = .ok (ps.map normPdu, [], [], k') := by
+  intro ps
+  induction ps with
+  | nil =>
+    intro stream _ hw k buf chunks hb hne
+    simp [writeAll] at hw; subst hw
+    obtain ⟨h1, h1'⟩ := List.append_eq_nil_iff.1 hb
+    subst h1
+    have h2 : chunks = [] := by
+      cases chunks with
+      | nil => rfl
+      | cons c cs =>
+        exfalso
+        have hc := hne c (by simp)
+        simp only [List.flatten_cons] at h1'
+        exact hc (List.append_eq_nil_iff.1 h1').1
+    subst h2
+    exact ⟨k, by simp [receiveManyWire]⟩
+  | cons p ps ih =>
+    intro stream hr hw k buf chunks hb hne
+    simp only [writeAll] at hw
+    obtain ⟨e, tail, he, ht, rfl⟩ := wcat_ok.1 hw
+    obtain ⟨buf', chunks', k1, h1, h2, h3⟩ :=
+      receive_one_wire hmx hrooms (hr p (by simp)) he tail (chunks.flatten.length + 1) k buf chunks
+        (Nat.lt_succ_self _) hb hne
+    obtain ⟨k2, h4⟩ := ih tail (fun q hq => hr q (by simp [hq])) ht k1 buf' chunks' h2 h3
+    exact ⟨k2, by simp only [List.length_cons, receiveManyWire, receiveWire, h1, h4, List.map_cons]⟩
+
+/-- the synchronous receiver (`BufReader`, 8192 bytes of room per read) -/
+theorem receive_seq_sync {mx : Nat} {strict : Bool} (hmx : validMax mx) (ps : List Pdu) (stream : Bytes)
+    (hr : ∀ p ∈ ps, Receivable mx strict p) (hw : writeAll ps = .ok stream)
+    (chunks : List Bytes) (hseg : chunks.flatten = stream) (hne : ∀ c ∈ chunks, c ≠ []) :
+    ∃ k, receiveManyWire mx strict (fun _ => 8192) ps.length 0 [] chunks = .ok (ps.map normPdu, [], [], k) :=
+  receive_seq_wire hmx (fun _ => by decide) ps stream hr hw 0 [] chunks (by simpa using hseg) hne
+
+/-- the asynchronous receiver (`read_buf` into whatever spare capacity the buffer has) -/
+theorem receive_seq_async {mx : Nat} {strict : Bool} (hmx : validMax mx) (rooms : Nat → Nat)
+    (hrooms : ∀ k, 1 ≤ rooms k) (ps : List Pdu) (stream : Bytes)
+    (hr : ∀ p ∈ ps, Receivable mx strict p) (hw : writeAll ps = .ok stream)
+    (chunks : List Bytes) (hseg : chunks.flatten = stream) (hne : ∀ c ∈ chunks, c ≠ []) :
+    ∃ k, receiveManyWire mx strict rooms ps.length 0 [] chunks = .ok (ps.map normPdu, [], [], k) :=
+  receive_seq_wire hmx hrooms ps stream hr hw 0 [] chunks (by simpa using hseg) hne
+
+/-- sync and async receivers agree with each other on every stream of receivable PDUs -/
+theorem sync_async_agree {mx : Nat} {strict : Bool} (hmx : validMax mx) (rooms : Nat → Nat)
+    (hrooms : ∀ k, 1 ≤ rooms k) (ps : List Pdu) (stream : Bytes)
+    (hr : ∀ p ∈ ps, Receivable mx strict p) (hw : writeAll ps = .ok stream)
+    (c1 c2 : List Bytes) (h1 : c1.flatten = stream) (h2 : c2.flatten = stream)
+    (n1 : ∀ c ∈ c1, c ≠ []) (n2 : ∀ c ∈ c2, c ≠ []) :
+    (receiveManyWire mx strict (fun _ => 8192) ps.length 0 [] c1).map (·.1) =
+      (receiveManyWire mx strict rooms ps.length 0 [] c2).map (·.1) := by
+  obtain ⟨k1, e1⟩ := receive_seq_sync hmx ps stream hr hw c1 h1 n1
+  obtain ⟨k2, e2⟩ := receive_seq_async hmx rooms hrooms ps stream hr hw c2 h2 n2
+  rw [e1, e2]; rfl
 /-- non-vacuity: a release request followed by an abort, delivered as 1 + 18 + 1 bytes -/
 example : receiveMany 16384 true 2 [] [[5], [0, 0, 0, 0, 4, 0, 0, 0, 0, 7, 0, 0, 0, 0, 4, 0, 0, 0], [0]]
     = .ok ([.releaseRQ, .abortRQ .serviceUser], [], []) := by rfl
